@@ -557,8 +557,14 @@ def run_case(case):
     """returns dict(line=model input, impl=canonical output of the real code, oracle=[(key, what)], stats)"""
     import logging
     import numpy as np
-    ss, auto = build(case)
-    repointed = apply_pre(ss, case, auto) if case.get('pre') else 0
+    try:
+        ss, auto = build(case)
+        repointed = apply_pre(ss, case, auto) if case.get('pre') else 0
+    except IndexError as e:
+        if 'Unique parameter' in str(e) and 'duplicate value' in str(e):
+            # invalid DATA, reported by the library when the device is added (or re-pointed): a refusal, not a violation
+            return {'line': None, 'impl': None, 'oracle': [], 'setup_failed': ['duplicate value in a unique reference: refused'], 'stats': {}}
+        raise
     errs = []
 
     class H(logging.Handler):
@@ -569,6 +575,14 @@ def run_case(case):
     logging.getLogger('andes').addHandler(h)
     try:
         ok = ss.setup()
+    except IndexError as e:
+        logging.getLogger('andes').removeHandler(h)
+        if 'Unique parameter' in str(e) and 'duplicate value' in str(e):
+            # invalid DATA, reported by the library: two devices name the same target in a field declared unique (an
+            # explicit idx that collides with an automatic one is renamed by System.add, and a reference written for it
+            # then names the other device).  A refusal, not a violation.
+            return {'line': None, 'impl': None, 'oracle': [], 'setup_failed': ['duplicate value in a unique reference: refused'], 'stats': {}}
+        raise
     except (ValueError, TypeError, KeyError) as e:
         logging.getLogger('andes').removeHandler(h)
         msg = repr(e)
